@@ -242,6 +242,9 @@ class Merge(Expr):
             s_method in ("disk", "tasks", "p2p")
             and self.how in ("inner", "left", "right", "leftsemi")
             and self.how != broadcast_side
+            # a semi join keeps every left row at most once: like how="left",
+            # the left side can not be the one that is broadcasted
+            and not (self.how == "leftsemi" and broadcast_side == "left")
             and broadcast is not False
         ):
             n_low = min(self.left.npartitions, self.right.npartitions)
